@@ -100,7 +100,7 @@ type Action struct {
 	A     string `json:"a"`     // run logon logout hbt testreq resend app unknown send llogout stop advance
 	Seq   int    `json:"seq"`   // MsgSeqNum of an inbound message
 	Sq    string `json:"sq"`    // ok | missing | nonnum
-	Integ string `json:"integ"` // none | checksum | bodylength | nonnum
+	Integ string `json:"integ"` // none | checksum | bodylength | nonnum | grpcount (Logon only)
 	Hb    int    `json:"hb"`
 	Enc   string `json:"enc"`
 	Cred  bool   `json:"cred"`
@@ -185,6 +185,11 @@ func Inbound(a *Action, peerID, ourID string, ts string) []byte {
 		}
 		if a.Extra == 10 { // ... a Logon that carries ResetSeqNumFlag (141=Y), as clients configured to reset on logon send it every time
 			body = append(body, F("141", "Y"))
+		}
+		if a.Integ == "grpcount" {
+			// structural damage of a repeating group in an otherwise perfectly framed Logon: NoMsgTypes (384) announces one
+			// entry, two follow
+			body = append(body, F("384", "1"), F("372", "D"), F("385", "S"), F("372", "8"), F("385", "R"))
 		}
 		body = append(body, F("553", "user"), F("554", pw))
 	case "logout":
